@@ -19,7 +19,7 @@ Task: produce TWO different, independent changes (call them A and B) to the libr
   2. the project still compiles and the existing test suite still passes completely (run it and confirm: `cd {wt} && cargo test --workspace --offline 2>&1 | grep -E "test result|FAILED|error"`), and
   3. looks like a plausible developer mistake or "optimisation" (a realistic regression, not sabotage like `panic!()` or deleting a feature), and
   4. needs something SPECIFIC to manifest — a particular multi-step sequence of operations or sessions, a particular dependency shape, an unusual but legal input, a fault or abort at a particular point, or two cooperating sites that each look fine alone — NOT something that ordinary simple use would expose at once. Prefer changes to internal logic (conditions, ordering, bookkeeping, caching, cursor/index handling) over changes of public signatures.
-For each change also write a DEMONSTRATION: a Rust integration test file (e.g. {wt}/pie/tests/seed_demo_a.rs or for the graph crate {wt}/graph/tests/seed_demo_a.rs; you may use the dev-dependencies already available: dev_util, dev_ext, assert_matches, testresult, tempfile via dev_util) that FAILS with the change applied and PASSES on the unchanged code. Verify both directions yourself (use `git stash` / `git diff > file` / `git apply` to switch; the demo test file must be kept out of the library patch). Run the demo with e.g. `cargo test --offline -p pie --test seed_demo_a` (tests that need the feature gate: the `pie` crate has feature `file_hash_checker`; the default test run does not enable it).
+For each change also write a DEMONSTRATION: a Rust integration test file (e.g. {wt}/pie/tests/seed_demo_a.rs or for the graph crate {wt}/graph/tests/seed_demo_a.rs; you may use the dev-dependencies already available: dev_util, dev_ext, assert_matches, testresult, tempfile via dev_util) that FAILS with the change applied and PASSES on the unchanged code. Verify both directions yourself (use `git diff > file` / `git apply` / `git apply -R` to switch; NEVER use `git stash` (the stash is shared with other worktrees) and keep every temporary file inside your worktree, not in /tmp; the demo test file must be kept out of the library patch). Run the demo with e.g. `cargo test --offline -p pie --test seed_demo_a` (tests that need the feature gate: the `pie` crate has feature `file_hash_checker`; the default test run does not enable it).
 
 Deliverables — create the directory {wt}/_out and put there, for X in {{a, b}}:
   - {wt}/_out/X/patch.diff : `git diff` of the library change ONLY (must apply with `git apply` to a clean checkout of the worktree's HEAD; must not contain the demo test file)
